@@ -38,6 +38,8 @@ def gen(rng, tier):
     cfg = sg.GenCfg(vars=vars_, ops=common.PAST_OPS, max_depth=rng.randint(2, 6 if big else 5), max_bound=rng.choice([2, 4, 6] + ([8, 10] if big else [])),
                     p_reuse=rng.choice([0.0, 0.33, 0.33, 0.5]), p_near=rng.choice([0.0, 0.0, 0.5]))
     ast = sg.gen_formula(rng, cfg)
+    if rng.random() < 0.2:
+        ast = sg.add_operator_twin(rng, ast, set(common.PAST_OPS))      # the same operands under another operator (log/pow, once/historically ...)
     text = 'out = ' + sg.to_text(ast, sg.Spelling(rng)) + ';'
     n = rng.choice([1, 2, 3, 4, 5, 6, 8, 10, 12, 14] + ([18, 24] if big else []))
     data = world.gen_trace(rng, vars_, n, p_bigint=0.06)
